@@ -3,6 +3,7 @@
 package routing
 
 import (
+	"sync"
 	"bytes"
 	"errors"
 	"time"
@@ -13,6 +14,8 @@ import (
 )
 
 func nm(s string, i int) string { return s + string(rune('0'+i)) }
+
+var logMutex sync.Mutex
 
 // sendRec is one call of ConvergenceSender.Send observed by a mock convergence layer.
 type sendRec struct {
@@ -54,7 +57,10 @@ func (m *mockCLA) Send(b bpv7.Bundle) error {
 	enc := append([]byte{}, w.Bytes()...)
 	pb, perr := bpv7.ParseBundle(bytes.NewReader(enc))
 	verif.Assert(perr == nil, "a bundle handed to a convergence layer parses as a valid bundle")
+	// Core.forward sends to several peers from one goroutine each: natively the appends to the shared log would race
+	logMutex.Lock()
 	*m.log = append(*m.log, sendRec{peer: m.addr, enc: enc, b: pb, ok: !m.fail, at: time.Now()})
+	logMutex.Unlock()
 	if m.fail {
 		return errors.New("mock: send failed")
 	}
